@@ -22,6 +22,15 @@ ModsABC == <<"a", "b", "c">>
 RouteT2 == [ao |-> <<[own |-> "b", ch |-> 1]>>, bo |-> <<[own |-> "a", ch |-> 0]>>,
             at |-> <<[own |-> "c", ch |-> 0], [own |-> "b", ch |-> 2]>>]
 OwnerT2 == [ao |-> "a", bo |-> "b", at |-> "a"]
+(* T1R: T1 plus the reverse direction of the a.out -- b.in connection: b may send on its gate "in"; the reverse   *)
+(* direction has its own channel instance (3) with the same parameters                                          *)
+RouteT1R == [ao |-> <<[own |-> "b", ch |-> 1]>>, bo |-> <<[own |-> "a", ch |-> 0]>>, bi |-> <<[own |-> "a", ch |-> 3]>>]
+OwnerT1R == [ao |-> "a", bo |-> "b", bi |-> "b"]
+(* T3: like T2 but the channel lies BEFORE the transit gate: a.o2 --ch2--> c.t --> b.i2 (a message can be in flight *)
+(* towards the transit module when that module goes down or comes back)                                             *)
+RouteT3 == [ao |-> <<[own |-> "b", ch |-> 1]>>, bo |-> <<[own |-> "a", ch |-> 0]>>,
+            at |-> <<[own |-> "c", ch |-> 2], [own |-> "b", ch |-> 0]>>]
+OwnerT3 == OwnerT2
 
 One(x) == [m \in {"a", "b", "c"} |-> x]
 One0 == One(0)
@@ -31,17 +40,17 @@ OneF == One(FALSE)
 OneT == One(TRUE)
 Bytes3 == [s \in 1..3 |-> 64 * s]
 BytesFast == [s \in 1..3 |-> IF s = 1 THEN 64 ELSE IF s = 2 THEN 100 ELSE 264]
-TxLin == [c \in {1, 2} |-> [s \in 1..3 |-> s]]                 \* 64 bytes per tick
-TxFast == [c \in {1, 2} |-> [s \in 1..3 |-> IF s = 3 THEN 1 ELSE 0]]   \* transmission time rounds to zero for small messages
-TxZero == [c \in {1, 2} |-> [s \in 1..3 |-> 0]]                \* bitrate 0 = unlimited
-Lat1 == [c \in {1, 2} |-> 1]
-Lat0 == [c \in {1, 2} |-> 0]
-PolDrop == [c \in {1, 2} |-> "drop"]
-PolQueue == [c \in {1, 2} |-> "queue"]
-LimNone == [c \in {1, 2} |-> -1]
-Lim128 == [c \in {1, 2} |-> 128]
-Lim0 == [c \in {1, 2} |-> 0]
-Lim200 == [c \in {1, 2} |-> 200]
+TxLin == [c \in {1, 2, 3} |-> [s \in 1..3 |-> s]]                 \* 64 bytes per tick
+TxFast == [c \in {1, 2, 3} |-> [s \in 1..3 |-> IF s = 3 THEN 1 ELSE 0]]   \* transmission time rounds to zero for small messages
+TxZero == [c \in {1, 2, 3} |-> [s \in 1..3 |-> 0]]                \* bitrate 0 = unlimited
+Lat1 == [c \in {1, 2, 3} |-> 1]
+Lat0 == [c \in {1, 2, 3} |-> 0]
+PolDrop == [c \in {1, 2, 3} |-> "drop"]
+PolQueue == [c \in {1, 2, 3} |-> "queue"]
+LimNone == [c \in {1, 2, 3} |-> -1]
+Lim128 == [c \in {1, 2, 3} |-> 128]
+Lim0 == [c \in {1, 2, 3} |-> 0]
+Lim200 == [c \in {1, 2, 3} |-> 200]
 
 (* ---- menus ---- *)
 Quiet == [m \in {"a", "b", "c"} |-> {<<>>}]
@@ -51,6 +60,11 @@ MenuChanA == {<<>>, <<Send("ao", 1)>>, <<Send("ao", 2), Send("ao", 1)>>, <<Send(
               <<Send("ao", 3), Send("ao", 1), Send("ao", 1), Send("ao", 1)>>}
 MenuChan == [m \in {"a", "b", "c"} |-> IF m = "a" THEN MenuChanA ELSE {<<>>}]
 StartChan == [m \in {"a", "b", "c"} |-> IF m = "a" THEN MenuChanA ELSE {<<>>}]
+(* C07 / C08: both ends of one connection send; each direction has its own busy state and queue *)
+MenuBidirA == {<<>>, <<Send("ao", 1)>>, <<Send("ao", 2), Send("ao", 1)>>, <<Send("ao", 3), Sched(1)>>, <<Sched(2), Send("ao", 1)>>}
+MenuBidirB == {<<>>, <<Send("bi", 1)>>, <<Send("bi", 2), Send("bi", 1)>>, <<Sched(1), Send("bi", 3)>>, <<SendIn("bi", 1, 2)>>}
+MenuBidir == [m \in {"a", "b", "c"} |-> IF m = "a" THEN MenuBidirA ELSE IF m = "b" THEN MenuBidirB ELSE {<<>>}]
+StartBidir == [m \in {"a", "b", "c"} |-> IF m = "a" THEN {<<Send("ao", 2), Sched(1)>>, <<Send("ao", 1)>>} ELSE IF m = "b" THEN {<<Send("bi", 2), Sched(1)>>, <<Sched(1)>>} ELSE {<<>>}]
 (* C09: lifecycle *)
 MenuLifeA == {<<>>, <<Send("ao", 1)>>, <<Send("ao", 1), Sched(1)>>, <<Sched(2)>>}
 MenuLifeB == {<<>>, <<Send("bo", 1)>>, <<ShutdownC>>, <<RestartC(2)>>, <<Send("bo", 1), RestartC(1)>>, <<Sched(1), ShutdownC>>, <<RestartC(0)>>}
